@@ -182,6 +182,35 @@ def execute_large(case):
     return {"ok": not fails, "failures": fails[:3], "outcome": "large-ok" if not fails else fails[0]["sig"]["kind"], "nontrivial": True, "n_sel": n}
 
 
+def execute_sequence(case):
+    """two products opened one after the other in one process (a level 1.1 and a level 1.5 image whose line records are equally
+    long, 544 + 8 P11 == 192 + 2 P15, and images of equal pixel count but different sample type), in both orders: each tree's
+    declared shape / dtype still equal what loads - whatever the library memoises between opens must not leak into the typing"""
+    L, rpc, p11 = case["L"], case["rpc"], case["P11"]
+    order = [("C*8", p11), ("IU2", 176 + 4 * p11 if case["pair"] == "reclen" else p11)]
+    if case["reverse"]:
+        order.reverse()
+    fails, n = [], 0
+    for k, (tc, P) in enumerate(order):
+        spec = synth.product_spec("1.1" if tc == "C*8" else "1.5", images=[synth.image_spec("HH", None, L, P, tc)])
+        files, _ = synth.build(spec)
+        want_dtype = np.dtype("uint16" if tc == "IU2" else "complex64")
+        with harness.Product(files, case["fs"]) as prod:
+            try:
+                da = prod.open(records_per_chunk=rpc)["imagery/HH/data"]
+                for label, sel in (("full", slice(None)), ("line", L - 1), ("every 2nd", slice(None, None, 2)), ("empty", slice(1, 1))):
+                    lazy = da.isel(rows=sel)
+                    exp_shape = np.empty((L, 0))[sel].shape[:-1] + (P,)
+                    vals = np.asarray(lazy.values)
+                    n += 1
+                    if vals.shape != tuple(lazy.shape) or tuple(lazy.shape) != exp_shape or vals.dtype != lazy.dtype or lazy.dtype != want_dtype:
+                        fails.append({"sig": {"kind": "sequence-declared-vs-loaded", "type": tc}, "detail": f"{tc} {L}x{P} rpc={rpc} opened as number {k + 1} of {[t for t, _ in order]} '{label}': declared {lazy.dtype}{tuple(lazy.shape)}, loaded {vals.dtype}{vals.shape}, header says {exp_shape}", "case": {**case, "fn": "execute_sequence"}})
+                        break
+            except Exception as e:
+                fails.append({"sig": {"kind": "sequence-unloadable", "type": tc, "exc": type(e).__name__}, "detail": f"{tc} {L}x{P} rpc={rpc} opened as number {k + 1} of {[t for t, _ in order]}: {type(e).__name__}: {str(e)[:100]}", "case": {**case, "fn": "execute_sequence"}})
+    return {"ok": not fails, "failures": fails[:3], "outcome": "sequence-ok" if not fails else fails[0]["sig"]["kind"], "nontrivial": True, "n_sel": n}
+
+
 LARGE = [("IU2", 1300, 40000, 64), ("IU2", 1300, 40000, None), ("C*8", 1200, 2000, 64), ("C*8", 1200, 2000, None), ("IU2", 5120, 4, None), ("IU2", 4096, 3, 4096), ("IU2", 2500, 8, 100), ("IU2", 2500, 8, 4), ("C*8", 1200, 3, 2), ("C*8", 300, 40000, 10)]
 
 
@@ -189,7 +218,7 @@ def run(res, tier, seed):
     res.rule = (
         "levels {1.1,1.5,3.1} x map projection {0,1} x {1,2,3} images + per level: 4 extreme point/channel counts, all nullable leader fields blank, optional header"
         " fields blank, every 32-bit line field at 2^32-1; in each tree every node, variable and attribute is inspected, every"
-        " variable loaded, and 90 selections per image compared before/after load; plus 9 selections each on 8 realistically sized images (1200..5120 lines, up to 104 MB, request sizes 0.3..96 MB). All cases are distinct products."
+        " variable loaded, and 90 selections per image compared before/after load; plus 9 selections each on 8 realistically sized images (1200..5120 lines, up to 104 MB, request sizes 0.3..96 MB); plus 144 two-product sequences in one process (a 1.1 and a 1.5 image of equal record length, or of equal pixel count; L {3,5} x rpc {1,2,1024} x P11 {1,2,8} x both orders x mcfs|local), 4 selections on each. All cases are distinct products."
     )
     res.assumptions = ["allowed dtype kinds: b,i,u,f,c,M,m,U,S; NumPy scalars count as plain scalars"]
     nv = na = ns = 0
@@ -200,5 +229,9 @@ def run(res, tier, seed):
         ns += out.get("n_sel", 0)
     for idx, case, out in core.pool_map(__name__, "execute_large", [{"type": tc, "L": L, "P": P, "rpc": rpc} for tc, L, P, rpc in LARGE], chunksize=1):
         res.record({**case, "fn": "execute_large"}, out, order=10**6 + idx)
+        ns += out.get("n_sel", 0)
+    seqs = [{"L": L, "rpc": rpc, "P11": p11, "pair": pair, "reverse": rev, "fs": fs} for L in (3, 5) for rpc in (1, 2, 1024) for p11 in (1, 2, 8) for pair in ("reclen", "pixels") for rev in (False, True) for fs in ("mcfs", "local")]
+    for idx, case, out in core.pool_map(__name__, "execute_sequence", seqs, chunksize=4):
+        res.record({**case, "fn": "execute_sequence"}, out, order=2 * 10**6 + idx)
         ns += out.get("n_sel", 0)
     res.extra.update({"variables_inspected": nv, "attributes_inspected": na, "selections_compared": ns})
